@@ -12,8 +12,5 @@ CONSTANTS
   Pos <- TrPos
   Prefix <- TrPrefix
   Chars <- TrChars
-  F6_SubCleansNames = FALSE
-  F7_SubStartNotTranslated = FALSE
-  F8_SubUnlimitedScopePanics = FALSE
 POSTCONDITION Accepted
 CHECK_DEADLOCK FALSE
